@@ -1,6 +1,7 @@
 import Pamqp.Spec.Defs
 import Pamqp.Model.Api
-import Pamqp.Props.TieA
+import Pamqp.Props.TieA.NoSharedMutation
+import Pamqp.Props.TieA.NoHiddenState
 import Pamqp.Proofs.ApiLemmas
 /-!
 # C16 — codec calls are independent of history and of concurrent callers
